@@ -630,6 +630,11 @@ class Analyzer:
                 mono = isinstance(old, Cur) and name in {n.id for n in ast.walk(value) if isinstance(n, ast.Name)} and c.k >= old.k
                 if isinstance(old, Cur) and old.lt and c.k > old.k and mono:
                     st["$consumed"] = True
+                # j = i + c (c >= 1) with i known below len(t): the characters stepped over are in the text (same reading as an
+                # argument `i + c` handed to a reader), whatever the position is called
+                if isinstance(value, ast.BinOp) and isinstance(value.op, ast.Add) and isinstance(value.left, ast.Name) and isinstance(value.right, ast.Constant) and \
+                        isinstance(value.right.value, int) and value.right.value >= 1 and isinstance(st.get(value.left.id), Cur) and st[value.left.id].lt:
+                    st["$consumed"] = True
                 src_name = value.id if isinstance(value, ast.Name) else None
                 self.kill_rels(st, {name}, keep_mono=({name} if mono else ()))
                 st[name] = Cur(c.k, c.eof if (mono or src_name) else False, c.lt if src_name else False)
